@@ -259,7 +259,16 @@ func init() {
 			}
 			keep = append(keep, p)
 		}
-		ph = append(extra, keep...)
+		// the seeds themselves first (one execution each, and the place where whole classes of history enter)
+		var first, rest []Phase
+		for _, p := range keep {
+			if strings.HasPrefix(p.Name, "S3 d=0") {
+				first = append(first, p)
+			} else {
+				rest = append(rest, p)
+			}
+		}
+		ph = append(append(first, extra...), rest...)
 		if th {
 			ph = append(ph, idlePhase)
 		}
